@@ -139,6 +139,20 @@ def gen_cases(rng, tier):
                       'warm': rng.choice([None, None, 'apply', 'expect'])})
     for c in cases:
         c['L1'] = l1_norm(c['ham'], c['norb'])
+    # quadratic (orbital-rotation) route on large sectors: H = sum h_pq a+_p a_q with h = i log(u) for an EXACTLY unitary
+    # Gaussian-rational u = G/d, so that exp(-iH) psi = Ext(u) psi is known exactly (exterior-power oracle of C12/C17).
+    # Sectors with more than 450 strings of one spin, count not a multiple of 450 (windows of the column kernels).
+    from props import c12
+    shapes = [(15, 1, 3), (15, 3, 1), (31, 1, 2), (31, 2, 1), (12, 1, 4), (12, 4, 1), (4, 2, 2), (5, 2, 1)]
+    rng.shuffle(shapes)
+    for norb, na, nb in (shapes[:3] if tier == 'quick' else shapes + shapes):
+        G, d = c12.random_unitary(rng, norb, rng.randint(2, 4), real=rng.random() < 0.3)
+        keys = fqeio.sector_keys(norb, 'ns', na + nb, na - nb)
+        basis = fqeio.basis_of(norb, keys)
+        vec = [[a, b, rng.randint(-2, 2) or 1, rng.randint(-2, 2)] for a, b in rng.sample(basis, min(12, len(basis)))]
+        cases.append({'kind': 'evolve_ext', 'recipe': 'quad_ext', 'norb': norb, 'mode': 'ns', 'n': na + nb, 'sz': na - nb,
+                      'vec': vec, 'G': [[list(x) for x in row] for row in G], 'd': d, 't': 1.0, 'algo': None,
+                      'ham': {'cls': 'restricted', 'rank': 1, 'entries': [], 'e0': [0, 0], 'real': False}})
     return cases
 
 
@@ -148,6 +162,19 @@ def run_impl(case, mode):
     import numpy
     import fqe
     norb = case['norb']
+    if case['kind'] == 'evolve_ext':
+        import scipy.linalg
+        u = numpy.array([[complex(*x) for x in row] for row in case['G']]) / case['d']
+        h = 1j * scipy.linalg.logm(u)
+        h = 0.5 * (h + h.conj().T)
+        wfn = fqeio.make_wfn(norb, 'ns', case['n'], case['sz'], case['vec'])
+        before = fqeio.read_state(wfn)
+        ham = fqe.get_restricted_hamiltonian((h,))
+        out = wfn.time_evolve(1.0, ham)
+        back = out.time_evolve(-1.0, ham)
+        return {'state': fqeio.read_state(out), 'unchanged': fqeio.read_state(wfn) == before,
+                'norm': [float(wfn.norm()), float(out.norm())], 'undo_err': float((back - wfn).norm()),
+                'herm_err': float(numpy.abs(scipy.linalg.expm(-1j * h) - u).max())}
     wfn = fqeio.make_wfn(norb, case['mode'], case['n'], case['sz'], case['vec'])
     ham = c01.build_ham(case['ham'], norb)
     t = case['t']
@@ -241,6 +268,12 @@ def taylor_oracle(model, case):
 
 
 def expected(model, case):
+    if case['kind'] == 'evolve_ext':
+        from props import c17
+        e = c17.expected(model, {'kind': 'givens', 'variant': 'both', 'norb': case['norb'], 'mode': 'ns', 'n': case['n'],
+                                 'sz': case['sz'], 'vec': case['vec'], 'G': case['G'], 'd': case['d']})
+        nrm = math.sqrt(sum(re * re + im * im for a, b, re, im in case['vec']))
+        return {'out': {k: tuple(v) for k, v in e['out'].items() if v != [0.0, 0.0]}, 'norm': nrm}
     r = taylor_oracle(model, case)
     if r is None:
         return {'skip': 'x too large for the exact oracle'}
@@ -272,6 +305,17 @@ def compare(case, got, exp, mode):
         return []
     bad = []
     scale = 1.0 + exp['norm']
+    if case['kind'] == 'evolve_ext':
+        if got['herm_err'] > 1e-10:
+            return []          # the harness could not build h = i log(u) accurately: no verdict
+        if not got['unchanged']:
+            bad.append('time_evolve (out of place) modified its input')
+        _cmp_state(got['state'], exp['out'], 'time_evolve(1, quadratic H = i log u) on (norb,n,sz)=(%d,%d,%d)' % (case['norb'], case['n'], case['sz']), bad, scale)
+        if abs(got['norm'][0] - got['norm'][1]) > TOL * scale:
+            bad.append('norm changed: %r -> %r' % tuple(got['norm']))
+        if got['undo_err'] > 10 * TOL * scale:
+            bad.append('-t does not undo t: |difference| = %.3g' % got['undo_err'])
+        return bad
     if not got['unchanged']:
         bad.append('time_evolve (out of place) modified its input')
     if got['evolve'] is None:
@@ -295,6 +339,8 @@ def compare(case, got, exp, mode):
 
 
 def classify(case, mode, bad, got, exp):
+    if case['kind'] == 'evolve_ext':
+        return None
     if c01.sparse_normal_orders_to_zero(case):
         return 'F-C01-empty-sparse-is-identity'
     pseudo = {'mode': case['mode'], 'norb': case['norb'], 'ham': case['ham']}
@@ -315,6 +361,9 @@ def case_class(case):
 
 def shrink(case):
     out = []
+    if case['kind'] == 'evolve_ext':
+        v = case['vec']
+        return [dict(case, vec=[v[k]]) for k in range(len(v))] if len(v) > 1 else []
     if case['ham']['e0'] != [0, 0]:
         out.append(dict(case, ham=dict(case['ham'], e0=[0, 0])))
     ents = case['ham']['entries']
